@@ -128,6 +128,16 @@ def run_impl(df, expo, p, weights, missing, miss_den, solver='closed', **kw):
     g.structural_nested_model(SNMS[p])
     if missing in ('model_stab', 'model_unstab'):
         g.missing_model(miss_den, stabilized=(missing == 'model_stab'), print_results=False)
+    # history: in about a third of the cases the object has already been fitted with ANOTHER structural model
+    # (a result must depend on the last specification only; stale term lists / solver state show up here)
+    g._verif_history = None
+    hr = getattr(run_impl, 'rng', None)
+    if hr is not None and hr.uniform() < 0.34:
+        p0 = int(hr.choice([q for q in SNMS if q != p]))
+        g.structural_nested_model(SNMS[p0])
+        g.fit(solver='closed')
+        g.structural_nested_model(SNMS[p])
+        g._verif_history = 'fitted before with %r (closed)' % SNMS[p0]
     g.fit(solver=solver, **kw)
     return g
 
@@ -262,6 +272,7 @@ def check_search(chk, df, ytype, p, weights, missing, expo, miss_den, closed, st
         chk.d(False, 'GEstimationSNM.fit(search) runs on valid input', dict(case, impl_error=repr(e)))
         return
     case['search_psi'] = [float(x) for x in psi_s]
+    case['history'] = getattr(g, '_verif_history', None)
     case['search_fun'] = float(res.fun)
     case['search_nit'] = int(res.nit)
     chk.case(case, ('search', p, bool(weights), missing, ytype, hash(df.to_csv())))
@@ -379,6 +390,7 @@ def check_unspecified(chk, rng):
 
 
 def run(chk, drv, rng, tier):
+    run_impl.rng = np.random.default_rng(int(rng.integers(0, 2 ** 31)))
     reps = 3 if tier == 'quick' else 30
     cells = list(itertools.product(['continuous', 'binary'], [1, 2, 3], [False, True], MISS))
     chk.extra['config_cells'] = len(cells)
